@@ -161,12 +161,12 @@ Proof.
   destruct (IH b1 (skipn want src) (left - blen piece) (written + blen piece) Hi1) as (b' & Hr & Hc' & Hl' & Hi').
   { rewrite skipn_length. unfold blen in *. lia. }
   { rewrite Hlen, blen_skipn. lia. }
-  exists b'. rewrite Hr. repeat split.
+  exists b'. rewrite Hr. split; [|split; [|split]].
   - f_equal. f_equal. rewrite blen_skipn. lia.
   - rewrite Hc', Hc, <- app_assoc. f_equal.
     destruct (Z.le_gt_cases (Z.of_nat want) (blen src)).
     + replace (Z.to_nat left) with (want + Z.to_nat (left - blen piece))%nat by lia.
-      apply firstn_add_skipn.
+      symmetry. apply firstn_add_skipn.
     + (* the piece was the whole rest of the source *)
       rewrite (skipn_all2 (n := want) src) by (unfold blen in *; lia). rewrite firstn_nil, app_nil_r.
       subst piece. rewrite !firstn_all2 by (unfold blen in *; lia). reflexivity.
